@@ -72,7 +72,13 @@ def strategy(tier):
     ctrl = st.lists(st.sampled_from([('language', 'de'), ('language', 'fr'), ('quotes language', 'german'), ('quotes language', 'swedish'),
                                      ('language', 'en'), ('latex mode', 'memoir')]), max_size=2, unique_by=lambda t: t[0])
     return st.fixed_dictionaries({
-        'body': st.one_of(gdoc.document(CFG), gdoc.document(CFG), st.integers(0, 200).map(lambda i: {'corpus': i})),
+        # 'tiny': a few characters over markers that look at their left neighbour, placed at the very first byte of the body (what precedes
+        # byte 0 of the text -- nothing, or a metadata block -- must not matter)
+        'body': st.one_of(gdoc.document(CFG), gdoc.document(CFG), st.integers(0, 200).map(lambda i: {'corpus': i}),
+                          st.tuples(st.sampled_from(['', 'a', 'b', '1', 'a', '"', "'"]), st.lists(st.sampled_from(['_', '*', '_', '*', '__', '**', 'a', 'b', ' ', '"', "'", '`', '^', '~', '1', '.']), min_size=2, max_size=6))
+                          .map(lambda p: (p[0] + ''.join(p[1])).strip(' ')).filter(lambda t: len(t) >= 2).map(lambda t: {'tiny': t}),
+                          st.tuples(st.sampled_from(['a', 'b', '1', 'a*', 'a_']), st.sampled_from(['_', '*', '__', '**']), st.sampled_from(['b', 'b c', 'b*c', 'b_c', '']),
+                                    st.sampled_from(['_', '*', '__', '**']), st.sampled_from(['', ' c', 'c', '*', '_'])).map(lambda p: {'tiny': ''.join(p)})),
         'body2': gdoc.document(CFG),
         'other': other, 'other2': other, 'ctrl': ctrl, 'yaml': st.booleans(),
         'fmt': st.sampled_from(['html', 'html', 'latex', 'beamer', 'memoir']),
@@ -85,6 +91,8 @@ def body_text(b):
     if 'corpus' in b:
         cs = corpus_bodies()
         return cs[b['corpus'] % len(cs)], True
+    if 'tiny' in b:
+        return b['tiny'] + ' end\n', False
     s = gdoc.ser_body(b)
     if KEYLINE.match(s.split('\n')[0]):
         s = 'lead words here\n\n' + s
@@ -104,7 +112,7 @@ def check(case, ctx):
     B, is_corpus = body_text(case['body'])
     if '\x00' in B:
         return
-    ctx.cls('body_corpus' if is_corpus else 'body_generated')
+    ctx.cls('body_corpus' if is_corpus else ('body_tiny_at_byte_0' if 'tiny' in case['body'] else 'body_generated'))
     ctx.cls('fmt_' + fmt)
     other = [list(t) for t in case['other']]
     ctrl = [list(t) for t in case['ctrl']]
